@@ -67,6 +67,8 @@ def classify(core_h, on):
     pre, mid = set(core_h[:first]), set(core_h[first + 1:-1])
     if s & SELFMUT:
         return "accessor-mutates-layout-during-miss"
+    if core_h[-1] in ("slen1_o", "slenN_o") and not (mid & (PROTO_DELETE | PROTO_DEFINE)):
+        return "array-length-store-bypasses-ArraySetLength"
     if core_h[-1] in ("sset_o", "sset_p") and "sset_p" in s and "sset_o" in s:
         return "super-set-ignores-receiver"
     if mid & PROTO_DELETE:
